@@ -11,7 +11,7 @@ sys.path.insert(0, ROOT)
 SUITES = {
     'tcpcl': ['tcpcl_types', 'tcpcl_models', 'tcpcl_models2', 'tcpcl_models3', 'tcpcl_messenger', 'tcpcl_send',
               'tcpcl_recv', 'tcpcl_handler', 'tcpcl_handler2', 'tcpcl_handler3', 'tcpcl_pump', 'tcpcl_msg',
-              'tcpcl_agent'],
+              'tcpcl_models4', 'tcpcl_modulate', 'tcpcl_agent'],
     'bp': ['bp_types', 'bp_models', 'bp_blocks', 'bp_agent', 'bp_apps'],
     'udpcl': ['udpcl_types', 'udpcl_agent'],
     'btpu': ['btpu_types', 'btpu_agent'],
@@ -65,10 +65,14 @@ def _tree_key(suite, timeout_ms, src):
                 for n in names:
                     if n.endswith('.py'):
                         files.append(os.path.join(root, n))
-    for d in (os.path.join(ROOT, 'contracts'), os.path.join(ROOT, 'pyvc')):
-        for n in sorted(os.listdir(d)):
-            if n.endswith('.py'):
-                files.append(os.path.join(d, n))
+    for stem in SUITES[suite]:
+        p = os.path.join(ROOT, 'contracts', stem + '.py')
+        if os.path.exists(p):
+            files.append(p)
+    d = os.path.join(ROOT, 'pyvc')
+    for n in sorted(os.listdir(d)):
+        if n.endswith('.py'):
+            files.append(os.path.join(d, n))
     for f in sorted(files):
         h.update(f.encode())
         with open(f, 'rb') as fh:
@@ -158,7 +162,8 @@ def units_for(suite, props=None, keys=None, src=None):
     return spec, jobs, trusted
 
 
-def run(suites, props=None, keys=None, timeout_ms=10000, procs=None, src=None, quiet=False, unit_limit_s=None):
+def run(suites, props=None, keys=None, timeout_ms=10000, procs=None, src=None, quiet=False, unit_limit_s=None,
+        no_cache=False):
     t0 = time.time()
     all_jobs = []
     trusted = []
@@ -185,7 +190,7 @@ def run(suites, props=None, keys=None, timeout_ms=10000, procs=None, src=None, q
     # own process management: a unit whose solver spins past every timeout is killed and
     # reported as undecided (never as a verdict)
     ctx = mp.get_context('fork')
-    use_cache = os.environ.get('PYVC_NO_CACHE') != '1'
+    use_cache = os.environ.get('PYVC_NO_CACHE') != '1' and not no_cache
     keys_by_suite = {}
     pending = []
     for job in jobs:
